@@ -302,8 +302,23 @@ func VerifC03Rollover() {
 			panic(err)
 		}
 		end := telem.TimeStamp(verifInt64("end"))
-		verifAssume(end > prevEnd && end <= 700)
+		verifAssume(end >= 0 && end <= 700)
 		cerr := w.Commit(ctx, end)
+		if end < prevEnd || end <= 100 {
+			// a commit may never move the committed end backwards (nor reach back to the writer's start),
+			// whether or not it also rolls the file over
+			verifAssert("rollover-backwards-commit-refused", cerr != nil)
+			break
+		}
+		if end == prevEnd {
+			// no progress in time: accepted within a file, refused right after a roll-over (the new domain
+			// would be empty in time); either is fine, but a refusal ends this writer's script
+			if cerr != nil {
+				break
+			}
+			committed = append(committed, chunk...)
+			continue
+		}
 		clear := end <= 500
 		verifAssert("rollover-commit-ok-iff-clear-of-neighbour", (cerr == nil) == clear)
 		if cerr != nil {
